@@ -326,6 +326,9 @@ func judge(w *sandbox, r *Request, pr *wire.ParsedResp) (string, string) {
 				}
 				cp.Headers = append(cp.Headers, wire.KV{K: "X-Was-Gzip", V: "1"})
 				pr = &cp
+				if bytes.Contains(plain, []byte(canary)) {
+					return "escape", id + ": served (compressed) the canary file from outside the root"
+				}
 			} else {
 				return "bad", fmt.Sprintf("%s: gzip body corrupt: %v", id, err)
 			}
@@ -447,6 +450,8 @@ func short(b []byte) []byte {
 }
 
 // runConn sends the requests on one keep-alive connection and judges every response.
+var besideN int
+
 func runConn(w *sandbox, reqs []*Request) (string, []string) {
 	var stream []byte
 	var methods []string
@@ -454,9 +459,27 @@ func runConn(w *sandbox, reqs []*Request) (string, []string) {
 		stream = append(stream, r.encode(w)...)
 		methods = append(methods, r.Method)
 	}
+	// A file next to the root that is named like the compressed copy of the root directory itself
+	// ("<root>.hertz.gz"): alternately as old as the directory (a copy the handler would take for current)
+	// and of another age (one it would take for stale). It lies outside the root: never served, never removed.
+	beside := w.root + ".hertz.gz"
+	besideN++
+	{
+		var zb bytes.Buffer
+		zw := gzip.NewWriter(&zb)
+		zw.Write([]byte(canary + ":compressed-copy-of-the-root")) //nolint:errcheck
+		zw.Close()
+		os.WriteFile(beside, zb.Bytes(), 0o644) //nolint:errcheck
+		age := w.mtime.Add(time.Duration(besideN%2) * time.Hour)
+		os.Chtimes(beside, age, age)         //nolint:errcheck
+		os.Chtimes(w.root, w.mtime, w.mtime) //nolint:errcheck
+	}
 	res := w.srv.Serve(sconn.New([][]byte{stream}, sconn.EOF))
 	if res.Panic != nil {
 		return fmt.Sprintf("panic while serving %v: %v\n%s", describe(reqs), res.Panic, res.Stack), nil
+	}
+	if _, err := os.Stat(beside); err != nil {
+		return fmt.Sprintf("serving %v removed %s, a file outside the root: %v", describe(reqs), filepath.Base(beside), err), nil
 	}
 	pos := 0
 	var classes []string
